@@ -8,9 +8,9 @@ import (
 // C05 — text outside Textwire syntax is emitted byte for byte; escapes and comments work.
 
 type c05Case struct {
-	Lex    []int `json:"lex"`              // indices into c05Lexemes
-	Form   int   `json:"form"`             // 0: T   1: T+P   2: P+T   3: P1+T+P2
-	P1     int   `json:"p1,omitempty"`     // piece index
+	Lex    []int `json:"lex"`          // indices into c05Lexemes
+	Form   int   `json:"form"`         // 0: T   1: T+P   2: P+T   3: P1+T+P2
+	P1     int   `json:"p1,omitempty"` // piece index
 	P2     int   `json:"p2,omitempty"`
 	Struct bool  `json:"structural,omitempty"` // Lex indexes c05Structural instead
 }
